@@ -25,6 +25,7 @@ type Struct struct {
 	Desc     string
 	Recipe   string           // api structures of the fixed codec-configuration family: the recipe FromRecipe rebuilds them from
 	New      func() Encodable // fresh instance (nil result: could not be rebuilt)
+	Twin     func() Encodable // optional (mutate.go): the same public history without its read-only observer calls (Size, Info, Encode to a discarded buffer)
 }
 
 // FromInput decodes in through every path and returns the resulting
@@ -463,6 +464,8 @@ func FromRecipe(c *runner.Ctx, recipe string) []Struct {
 	switch fam {
 	case "sidx":
 		return fromSidxRecipe(c, recipe, f)
+	case "hist":
+		return fromHistRecipe(c, recipe, f)
 	case "esds":
 		n, flags, url, fill, wrap := atoi("n"), byte(atoi("flags")), atoi("url"), atoi("fill") == 1, f["wrap"]
 		if n < 0 || n > 4<<20 || url < 0 || url > 255 {
